@@ -271,6 +271,14 @@ func (idx *HNSWIndex) Add(vector VectorNode) error {
 		idx.flushLocked()
 	}
 
+	// A soft-deleted entry point cannot be a neighbour of the new vertex: if it
+	// is all that can be reached, the vertex would be inserted without any edge
+	// and stay unreachable. Purge first so that insertion starts from a live
+	// entry point (or the new vertex becomes the entry point).
+	if len(idx.nodes) > 0 && idx.deletedNodes.Contains(idx.entryPoint) {
+		idx.flushLocked()
+	}
+
 	// Update max level
 	if level > idx.maxLevel {
 		idx.maxLevel = level
